@@ -253,6 +253,11 @@ func (s *serverEnc) Encode(it Item, i int) []byte {
 		proto.ServerCodeData.Encode(&b)
 		s.block(&b, true, s.resultCols(i, 2), 2)
 		b.Buf = b.Buf[:len(b.Buf)/2+1]
+	case "half":
+		// the first part of a Data packet, and then silence (the connection stays open)
+		proto.ServerCodeData.Encode(&b)
+		s.block(&b, true, s.resultCols(i, 2), 2)
+		b.Buf = b.Buf[:len(b.Buf)/2+1]
 	case "cut":
 		// nothing: the server closes the connection
 	default:
